@@ -370,6 +370,10 @@ func c18c(tp *tape.Tape) core.Result {
 		if tp.Bool() { // an order of magnitude larger: the stack was once several times what the later call needs
 			d = 5000 + tp.Draw(2000)
 			first = 16000 + tp.Draw(8000)
+			if tp.Bool() { // and larger still
+				d = 9000 + tp.Draw(3000)
+				first = 30000 + tp.Draw(10000)
+			}
 			s.Budget = 60_000_000
 		}
 		defs = append(defs, fmt.Sprintf("upd = (v) -> {\n%sx = v\ng = () -> x\nra = deep(%d)\nx = v + 1\ng()\n}", pad(w), d))
